@@ -31,6 +31,20 @@ CHECKS = {
         technique='symbolic execution of the real Python code (CrossHair/z3), per-condition solver verdict',
         engine='E1',
     ),
+    'C17': dict(
+        category='other',
+        text=('Bounded symbolic execution (CrossHair + z3) of the real text helpers (_left/_right/_mid/_search/_value/'
+              '_excel_value_to_string) of the regenerated runtime class and of classes emitted by the real Parser for LEFT/RIGHT/MID/&/'
+              'CONCATENATE/SEARCH/VALUE; texts (ASCII, len<=4/5), counts/positions, the plain SEARCH needle and the searched text are '
+              'symbolic; wildcard patterns are an enumerated concrete family (the runtime compiles them). Oracles: Python slices, '
+              'casefolded find, an independent backtracking wildcard matcher.'),
+        design_ref='DESIGN.md section 6 / C17',
+        note=('ASCII texts only (str.lower/upper and re.findall run on validated models inside the engine); symbolic wildcard patterns, '
+              "VALUE's date/time/percent ladder, text forms of floats/booleans/blank under & are outside the claim; two known findings "
+              '(wildcard pattern literals inside SEARCH) are listed in known_findings.json.'),
+        technique='symbolic execution of the real Python code (CrossHair/z3), per-condition solver verdict',
+        engine='E1',
+    ),
 }
 
 NOT_YET = {}   # filled below for every property without a check
